@@ -60,6 +60,13 @@ The translator never guesses: every construct outside the supported subset abort
                handlers (`Pyoda.Gen.pyTry`), the first handler whose classes include the raised class (subclass table
                EXC_CLASSES, mirrored from CPython's hierarchy) decides; handlers that do anything but raise, `else`,
                `finally` are UNSUPPORTED.
+  calls        a `binds` entry may name SEVERAL specialisations of the bound member (the arguments pick one, as for a direct
+               call); a literal `None` argument selects the specialisation translated for `<parameter> is None`; `x = None` on
+               a straight-line path makes x statically None from there on (paths are never joined; inside a loop it is
+               UNSUPPORTED); a value of type T / a statically None value passed for an optional (`?T`) parameter of a helper or
+               a translated callee becomes `some v` / `none`; `xs: list[C] = []` takes the declared list type whose elements
+               are C when several declared types share the fresh text `[]`; a method of a structure may take the state
+               object as ANOTHER parameter (`def _write(self, writer)`) and be called on a value with that state passed on.
   misc         nested-class constants and class paths "A.B.C", `match` on dotted constants, `SomeIntEnum(x)` (member lookup,
                ValueError when absent), `hash(obj)` of an object of a translated class (the group's "object_hash" applied to
                its translated `__hash__`), `==` / `!=` on declared identity-compared objects ("eq_only"), helper
